@@ -288,7 +288,12 @@ async fn scenario(ctx: &Ctx, rng: &mut Rng, epmd: &net::EpmdTable, id: usize, sc
         let uid = (id as i128 % 1_000_000) * 1000 + c as i128;
         handles.push(tokio::spawn(async move {
             let t0 = Instant::now();
-            let r = node.rpc_call_raw_with_timeout(&peer_node, "m", "f", vec![OwnedTerm::Integer(uid as i64)], call_timeout).await;
+            // every third caller goes through the wrapper that unpacks {rex, Result}; it is put back for the comparison
+            let r = if c % 3 == 2 {
+                node.rpc_call_with_timeout(&peer_node, "m", "f", vec![OwnedTerm::Integer(uid as i64)], call_timeout).await.map(|t| OwnedTerm::Tuple(vec![OwnedTerm::atom("rex"), t]))
+            } else {
+                node.rpc_call_raw_with_timeout(&peer_node, "m", "f", vec![OwnedTerm::Integer(uid as i64)], call_timeout).await
+            };
             CallOutcome { uid, result: r.map(|t| val_of(&t)).map_err(|e| e.to_string()), elapsed: t0.elapsed(), timeout: call_timeout }
         }));
     }
